@@ -8,3 +8,4 @@ INVARIANT AbsurdCountIsRejected
 INVARIANT Aligned
 INVARIANT PortRule
 PROPERTY Terminates
+INVARIANT EmitCase
